@@ -1,17 +1,25 @@
 #!/bin/bash
-# applies every harmless refactoring /tmp/ref_*/refactor_N.diff to /repo, runs all 18 quick checks, undoes it
+# applies every harmless refactoring /tmp/ref_*/refactor_N.diff to /repo, runs all 18 quick checks (in parallel), undoes it
 cd /verif
+./build.sh > /dev/null 2>&1
 for d in /tmp/ref_*; do
+  [ -d $d ] || continue
   k=$(basename $d)
   for n in 1 2 3; do
     f=$d/refactor_$n.diff; [ -f $f ] || continue
     [ -z "$(git -C /repo status --porcelain)" ] || { echo "/repo not clean"; exit 2; }
     git -C /repo apply $f || { echo "$k-$n: does not apply"; continue; }
     t=$(cd /repo && timeout 900 /venv/bin/python -m pytest -q -p no:cacheprovider --timeout=900 2>&1 | tail -1)
+    mkdir -p build/ref_$k-$n
+    for c in C01 C02 C03 C04 C05 C06 C07 C08 C09 C10 C11 C12 C13 C14 C15 C16 C17 C18; do
+      (VERIF_SEED=0 timeout 3000 ./check $c --tier quick > build/ref_$k-$n/$c.log 2>&1) &
+    done
+    wait
     out=""
     for c in C01 C02 C03 C04 C05 C06 C07 C08 C09 C10 C11 C12 C13 C14 C15 C16 C17 C18; do
-      r=$(VERIF_SEED=0 timeout 3000 ./check $c --tier quick 2>&1 | grep -c '^VIOLATION')
+      r=$(grep -c '^VIOLATION' build/ref_$k-$n/$c.log)
       [ "$r" != "0" ] && out="$out $c($r)"
+      grep -q "quick:" build/ref_$k-$n/$c.log || out="$out $c(no-summary)"
     done
     echo "$k-$n: tests: $t | alarms:${out:- none}"
     git -C /repo checkout -- .
